@@ -2,7 +2,7 @@
 import re
 
 from lib_facts import fn_name
-from lib_flow import strip_refs, expr_calls, expr_str, sensitive_paths, PathEval  # noqa: F401
+from lib_flow import strip_refs, expr_calls, expr_str, sensitive_paths, PathEval, path_bool_labels  # noqa: F401
 from lib_inter import deep_leaves
 from roles import roles
 from c01 import d_loc
@@ -15,7 +15,7 @@ EXPLANATION = (
     "the constant 0 used when the upstream is gone; a constant Some(k) upper bound is a violation (it ignores the futures "
     "in flight); the lower bound is saturating_add(l, q) with l the upstream's lower bound or 0; R17.2 no unchecked "
     "Add/Mul on these values; R17.3 the four collections return (x, Some(x)) with both components the result of one len() "
-    "call of that collection, and the two merges do not override the (0, None) default. Truth of the bound relative to "
+    "call of that collection, and a merge either keeps the (0, None) default or overrides it with a bound decided per path (None; Some(0) only where no source is held; the checked sum over every held source's hint). Truth of the bound relative to "
     "honest upstream hints beyond this shape (pure arithmetic) is not a separate claim.")
 ASSUMPTIONS = [
     "upstream size_hint is honest",
@@ -79,6 +79,10 @@ def classify_upper(ctx, b, pe, hi, counter, need_heap, extra=frozenset()):
                 lv |= set(extra)
         has_q = ("field", counter) in lv
         has_heap = any(x[0] == "call" and re.search(r"BinaryHeap::<.*>::len$", x[1] or "") for x in lv)
+        import c04
+        if not (has_q and has_heap) and any(c04.reads_window(ctx, b, a) for a in hi[2]):
+            has_q = has_heap = True       # running + parked as the distance of the position counters (C04 link)
+            ctx._window_form_used = True
         ok = has_q and (has_heap or not need_heap)
         return ok, "checked_add over {%s}; in-flight counter: %s%s" % (
             ", ".join(sorted(expr_str(a) for a in hi[2])), has_q, ("; parked heap: %s" % has_heap) if need_heap else "")
@@ -161,8 +165,11 @@ def r17_1(ctx, R, counter):
                 lv = set()
                 for a in lo[2]:
                     lv |= _leaves(ctx, b, pe, a)
+                import c04
+                win = any(c04.reads_window(ctx, b, a) for a in lo[2])
                 allowed = all(x[0] in ("const", "field", "param", "multi", "fn") or
-                              (x[0] == "call" and re.search(r"size_hint$|::len$|::is_empty$|Option::<.*>::(as_ref|map|unwrap_or)$|Deref", x[1] or ""))
+                              (x[0] == "call" and re.search(r"size_hint$|::len$|::is_empty$|Option::<.*>::(as_ref|map|unwrap_or)$|Deref", x[1] or "")) or
+                              (win and x[0] == "call" and re.search(r"Wrapping<usize> as core::ops::Sub>::sub$|<impl usize>::wrapping_sub$", x[1] or ""))
                               for x in lv)
                 lo_ok = allowed
             ctx.ob("R17.1", b, "lower-bound-shape#path%d" % k, lo_ok, d_loc(b), expr_str(lo))
@@ -192,7 +199,11 @@ def _binops(e, out=None):
 
 def r17_3(ctx, R):
     ctx.rule("R17.3", "collections: size_hint = (x, Some(x)) with x the result of one len() call of the same collection "
-                      "(or the remaining-counter field itself); the merges keep the trait default (0, None)")
+                      "(or the remaining-counter field itself); the merges keep the trait default (0, None), or override it so that on every "
+                      "feasible path the upper bound is None, Some(0) only where no source is held (emptiness observer true / the "
+                      "all-sources iteration ended at once), or the checked_add chain over the upper hint of every source visited "
+                      "on that path (an iterator that may skip sources, an unchecked sum or a missed source is a violation); the "
+                      "lower bound is 0 or a saturating sum of lower hints")
     n = 0
     for b in ctx.facts.fn_bodies():
         m = re.match(r"^<((futures_\w+)::(\w+))<.*> as futures_core::Stream>::size_hint$", b.path)
@@ -226,11 +237,139 @@ def r17_3(ctx, R):
                                     ok = True
         ctx.ob("R17.3", b, "(len, Some(len))", ok, d_loc(b), det)
     ctx.floor("R17.3", "collection-size_hints", n, 4)
+    nm_ = 0
     for b in ctx.facts.fn_bodies():
         if re.search(r"^<merge_\w+::.* as futures_core::Stream>::size_hint$", b.path):
-            # an override must follow the adapters' shape over the source count; today there is none
-            ctx.ob("R17.3", b, "merge-size_hint-override", False, d_loc(b), "merges are expected to keep the (0, None) default")
-    ctx.ob("R17.3", "<crate>", "merges-use-default-size_hint", True, "", "no override present")
+            nm_ += 1
+            merge_override(ctx, R, b)
+    ctx.ob("R17.3", "<crate>", "merges-use-default-size_hint", True, "", "%d override(s) present, each decided per path" % nm_)
+
+
+RE_ITER_PLUMBING = r"IntoIterator>::into_iter$|core::slice::<impl \[T\]>::iter(_mut)?$|Deref>::deref$|core::iter::Iterator::by_ref$|" \
+                   r"alloc::vec::Vec::<.*>::(iter|as_slice)$"
+
+
+def _all_sources_iterator(ctx, R, it):
+    """`it` (the receiver of Iterator::next) enumerates every held source: plain iteration plumbing over a crate slot
+    iterator (a slot-map method returning filter_map(slots.iter(), |s| Occupied(f) => Some(f), _ => None)) or over the
+    vector of groups -- no skip / take / filter / step_by / rev-and-stop adapter in between."""
+    from lib_flow import iterator_chain, variant_facts
+    chain, src = iterator_chain(it)
+    for short, full in chain:
+        if re.search(RE_ITER_PLUMBING, full):
+            continue
+        cb = ctx.facts.bodies.get(full)
+        if cb is not None and cb in R.slotmap_methods:
+            r_ = ctx.flow(cb).local_expr(0)
+            ch2, src2 = iterator_chain(r_)
+            names = [x[0] for x in ch2]
+            if names[:1] == ["filter_map"] and all(re.search(RE_ITER_PLUMBING, f2) for _, f2 in ch2[1:]) and r_[0] == "call" and len(r_[2]) > 1:
+                cl = r_[2][1]
+                clb = ctx.facts.bodies.get(cl[1][len("closure:"):]) if cl[0] == "agg" and cl[1].startswith("closure:") else None
+                if clb is None:
+                    return False, "slot iterator %s: filter closure not found" % full
+                occ, free = R.slot_variants
+                okc = True
+                n = 0
+                for kind, path, know in sensitive_paths(clb, ctx.flow(clb), 2):
+                    if kind != "return":
+                        continue
+                    n += 1
+                    rr = PathEval(clb, path).local_expr(0)
+                    vs = set(know[-1].values()) if know else set()
+                    if occ in vs and not (rr[0] == "agg" and rr[1].endswith("Option::Some")):
+                        okc = False
+                if okc and n:
+                    continue
+                return False, "slot iterator %s skips occupied slots" % full
+            if cb.locals[0].startswith("slot_map::") or "IterMut" in cb.locals[0]:
+                continue      # the slot map's own pinned iterator (every occupied slot; audited by C04 R4.3 / C08)
+            return False, "slot-map method %s is not a plain occupied-slot iterator" % full
+        return False, "iterator adapter %s may skip sources" % full
+    return True, "iterates every held source: %s" % " <- ".join(x[0] for x in chain)
+
+
+def _contradictory(e):
+    """The expression projects a payload `@V` out of an aggregate built as another variant: the path that produced it is
+    infeasible (e.g. the `(Some(a), Some(b))` arm taken with an accumulator that is `None` on this path)."""
+    if not isinstance(e, tuple) or not e:
+        return False
+    if e[0] == "proj":
+        base = strip_refs(e[1])
+        if base[0] == "agg" and e[2] and e[2][0].startswith("@") and "::" in base[1] and base[1].split("::")[-1] != e[2][0][1:]:
+            return True
+        return _contradictory(e[1])
+    if e[0] in ("call", "agg"):
+        return any(_contradictory(a) for a in e[2])
+    if e[0] == "ref":
+        return _contradictory(e[1])
+    if e[0] == "binop":
+        return _contradictory(e[2]) or _contradictory(e[3])
+    if e[0] in ("unop", "cast"):
+        return _contradictory(e[2])
+    return False
+
+
+def merge_override(ctx, R, b):
+    """A merge may override size_hint only with a bound that is true for the union of the held sources: per feasible
+    path the upper bound is None, or Some(0) where no source is held (emptiness observer true, or the all-sources
+    iteration ended at once), or the checked_add chain over the upper hint of EVERY source visited on that path; the
+    lower bound is 0 or a saturating_add chain over lower hints."""
+    fl = ctx.flow(b)
+    k = 0
+    for kind, path, know in sensitive_paths(b, fl, 3):
+        if kind != "return":
+            continue
+        k += 1
+        pe, ret = path_return(b, path)
+        if not (ret[0] == "agg" and ret[1] == "tuple" and len(ret[2]) == 2):
+            ctx.ob("R17.3", b, "merge-size_hint-override#path%d" % k, False, d_loc(b), "does not return a tuple: " + expr_str(ret))
+            continue
+        lo, hi = ret[2]
+        if _contradictory(hi) or _contradictory(lo):
+            continue      # infeasible path
+        # the items visited on this path: Some-edges of Iterator::next results; exhaustion: the last such edge is None
+        items = 0
+        exhausted = False
+        iters_ok = True
+        iter_det = ""
+        for i in range(len(path) - 1):
+            for lab in fl.edge_labels(path[i]).get(path[i + 1], []):
+                if lab[0] == "variant" and strip_refs(lab[1])[0] == "call" and re.search(r"Iterator>?::next$", strip_refs(lab[1])[1] or ""):
+                    if lab[2] == "Some":
+                        items += 1
+                        exhausted = False
+                    elif lab[2] == "None":
+                        exhausted = True
+                    okit, d_ = _all_sources_iterator(ctx, R, strip_refs(lab[1])[2][0])
+                    iters_ok = iters_ok and okit
+                    iter_det = d_
+        empt = any(v is True and e[0] == "call" and re.search(r"::is_empty$", e[1] or "") and e[1] in ctx.facts.bodies
+                   for e, v in path_bool_labels(b, fl, path))
+        calls = expr_calls(hi)
+        n_sh = sum(1 for c in calls if re.search(r"::size_hint$", c[1] or ""))
+        other = [c[1] for c in calls if not re.search(r"::size_hint$|checked_add$|Iterator>?::next$|" + RE_ITER_PLUMBING, c[1] or "")
+                 and not (c[1] in ctx.facts.bodies and ctx.facts.bodies[c[1]] in R.slotmap_methods)]
+        if hi[0] == "agg" and hi[1].endswith("Option::None"):
+            ok, det = True, "None (no upper bound)"
+        elif hi[0] == "agg" and hi[1].endswith("Option::Some") and hi[2][0][0] == "const":
+            zero = hi[2][0][2] == "0"
+            ok = zero and (empt or (items == 0 and exhausted and iters_ok))
+            det = "Some(%s): emptiness established: %s; all-sources iteration ended at once: %s (%s)" % (
+                hi[2][0][2], empt, items == 0 and exhausted and iters_ok, iter_det)
+        else:
+            ok = items >= 1 and exhausted and iters_ok and n_sh == items and not other and not _binops(hi) and \
+                any(re.search(r"checked_add$", c[1] or "") for c in calls)
+            det = "sum of upper hints: %d source(s) visited, %d hint(s) added, loop left by exhaustion: %s, %s; other calls %s" % (
+                items, n_sh, exhausted, iter_det, other[:2])
+        ctx.ob("R17.3", b, "merge-upper-bound-covers-every-source#path%d" % k, ok, d_loc(b), det, path=None if ok else path)
+        lcalls = expr_calls(lo)
+        lother = [c[1] for c in lcalls if not re.search(r"::size_hint$|saturating_add$|Iterator>?::next$|" + RE_ITER_PLUMBING, c[1] or "")
+                  and not (c[1] in ctx.facts.bodies and ctx.facts.bodies[c[1]] in R.slotmap_methods)]
+        lo_ok = (lo[0] == "const" and lo[2] == "0") or (not lother and not _binops(lo) and ".1" not in repr(lo) and
+                                                       any(re.search(r"saturating_add$", c[1] or "") for c in lcalls))
+        ctx.ob("R17.3", b, "merge-lower-bound-shape#path%d" % k, lo_ok, d_loc(b), expr_str(lo)[:200])
+    ctx.floor("R17.3", "paths:" + b.path, k, 1)
 
 
 def run(ctx):
